@@ -7,27 +7,39 @@ open PC.Sup
 /-- The skip path: the dependent is reported Skipped with exit code 1, is done (its own dependents
     are released) and does not enter `run()` (its goroutine goes to `proc:skipped`, from where only
     the shutdown trigger / clean-up follow). -/
-theorem skip_effect (s : Sys) (t : Tid) (i : IId) (ht : t < s.threads.length) (hi : i < s.insts.length)
+theorem skip_effect_core (s : Sys) (t : Tid) (i : IId) (ht : t < s.threads.length) (hi : i < s.insts.length)
     (hn : s.nameOf i < s.pstates.length) :
-    let s' := doSkip s t i
+    let s' := (onProcessEnd s i .skipped).setPc t .procSkipped
     (s'.ps (s.nameOf i)).status = .skipped ∧ (s'.ps (s.nameOf i)).exit = 1 ∧
     (s'.inst i).done = true ∧ (s'.thr t).pc = .procSkipped ∧ (s'.obs.filter isLaunch) = s.obs.filter isLaunch := by
   have hname : (s.setInst i endInst).nameOf i = s.nameOf i := nameOf_setInst _ _ _ _ (fun x => rfl)
   refine ⟨?_, ?_, ?_, ?_, ?_⟩
-  · simp only [doSkip, onProcessEnd, setState, setPc_ps, emit_ps, hname]
+  · simp only [onProcessEnd, setState, setPc_ps, emit_ps, hname]
     rw [ps_setPs _ _ _ _ (by simpa using hn)]
     simp only [↓reduceIte]
     rw [emit_ps, ps_setPs _ _ _ _ (by simpa using hn)]
     simp
-  · simp only [doSkip, onProcessEnd, setState, setPc_ps, emit_ps, hname]
+  · simp only [onProcessEnd, setState, setPc_ps, emit_ps, hname]
     rw [ps_setPs _ _ _ _ (by simpa using hn)]
     simp
-  · simp only [doSkip, onProcessEnd, setState, setPc_inst, emit_inst, setPs_inst]
+  · simp only [onProcessEnd, setState, setPc_inst, emit_inst, setPs_inst]
     rw [inst_setInst _ _ _ _ hi]; simp [endInst]
-  · simp only [doSkip]
-    rw [thr_setPc_self]
+  · rw [thr_setPc_self]
     simpa [onProcessEnd, setState] using ht
-  · simp [doSkip, onProcessEnd, setState, Sys.emit, Sys.setPc, Sys.setPs, Sys.setInst, List.filter_append, isLaunch]
+  · simp [onProcessEnd, setState, Sys.emit, Sys.setPc, Sys.setPs, Sys.setInst, List.filter_append, isLaunch]
+
+/-- the skip path as the code runs it: the instance is first recorded in the done registry (so that
+    its own dependents still find it after it has been unregistered), then ended as Skipped -/
+theorem skip_effect (s : Sys) (t : Tid) (i : IId) (ht : t < s.threads.length) (hi : i < s.insts.length)
+    (hn : s.nameOf i < s.pstates.length) :
+    let s' := doSkip s t i
+    (s'.ps (s.nameOf i)).status = .skipped ∧ (s'.ps (s.nameOf i)).exit = 1 ∧
+    (s'.inst i).done = true ∧ (s'.thr t).pc = .procSkipped ∧ (s'.obs.filter isLaunch) = s.obs.filter isLaunch ∧
+    s'.doneM.getD (s.nameOf i) none = (if s.nameOf i < s.doneM.length then some i else none) := by
+  have h := skip_effect_core (addDone s i) t i ht hi hn
+  refine ⟨h.1, h.2.1, h.2.2.1, h.2.2.2.1, h.2.2.2.2, ?_⟩
+  simp only [doSkip, onProcessEnd, setState, Sys.setPc, Sys.emit, Sys.setPs, Sys.setInst, addDone]
+  split <;> simp_all [List.getD_eq_getElem?_getD]
 
 /-- **Transitivity**: a skipped process counts as ended with a non-zero exit code, so a dependent
     waiting with `process_completed_successfully` on a name whose reported exit code is non-zero
@@ -68,7 +80,7 @@ theorem unmet_condition_skips (s : Sys) (t : Tid) (i d : IId) (rest) (ht : t < s
     ((s.ps (s.nameOf d)).health ≠ .ready → ((armWaitReady s t i d rest).thr t).pc = .procSkipped) ∧
     ((s.inst d).logReady ≠ .ok → ((armWaitLogReady s t i d rest).thr t).pc = .procSkipped) := by
   have hskip : ((doSkip s t i).thr t).pc = .procSkipped := by
-    unfold doSkip; exact pc_setPc _ _ _ (by simpa using ht)
+    unfold doSkip; exact pc_setPc _ _ _ (by simpa [addDone] using ht)
   refine ⟨fun h => ?_, fun h => ?_, fun h => ?_⟩
   · simp [armWaitDone, h, hskip]
   · simp [armWaitReady, h, hskip]
